@@ -530,6 +530,9 @@ def rule_real_nan(ctx):
         seen.add(n)
         ok_inf = any(_edge_dominates(cfg, t, 'false', n) for t in inf)
         ok_nan = any(_edge_dominates(cfg, t, 'false', n) for t in nan)
+        # the same test spelt `x == x` (true only for non-NaN) guards on its true edge
+        nan_eq = [t for t in cfg.stmt_nodes() if t.kind == 'test' and norm(t.ast.test) == '%s == %s' % (var, var)]
+        ok_nan = ok_nan or any(_edge_dominates(cfg, t, 'true', n) for t in nan_eq)
         ctx.ob('A3.partial', f, 'int(%s) on a float' % var, ok_inf and ok_nan,
                'infinities excluded: %s; NaN excluded: %s (int(nan) raises ValueError out of the decoder for a REAL in decimal '
                'form spelling "nan")' % (ok_inf, ok_nan), node=x)
